@@ -154,6 +154,31 @@ def run(pid: str, tier: str, seed: int, selftest=False, replay=None) -> int:
         text = ("builtin.module {\n  func.func public @f(%a : " + lt + ", %b : " + lt + ", %c : " + lt + ", %n : index) -> " + et + " {\n" + "\n".join(lines)
                 + "\n    func.return %r : " + et + "\n  }\n}\n")
         jobs.append((f"returned:{seed}:{k}", text, "l1", None))
+    # the passes that finish the memory story: (1) alloc-to-global turns buffers a function returns into statically allocated globals -
+    # each its own; (2) clear-memory-space erases memory spaces and tiled layouts from every type once they have been acted on
+    base_t = mt()
+    for k in range(30 if quick else 300):
+        nret = rng.choice([1, 2, 2])
+        lines, rets = [], []
+        for j in range(nret):
+            lines.append(f"    %l{j} = memref.alloc() : {base_t}")
+            lines.append(f'    linalg.generic {{indexing_maps = [{ID2}, {ID2}, {ID2}], iterator_types = ["parallel", "parallel"]}} '
+                         f'ins(%a, {rng.choice(["%b", "%c"])} : {base_t}, {base_t}) outs(%l{j} : {base_t}) attrs = {{tag = {j + 1} : i32}} {{')
+            lines += ["    ^bb0(%x : i8, %y : i8, %z : i8):", "      %mm = arith.muli %x, %y : i8", "      linalg.yield %mm : i8", "    }"]
+            rets.append(f"%l{j}")
+        if rng.random() < 0.6:
+            lines.append(f'    linalg.generic {{indexing_maps = [{ID2}, {ID2}, {ID2}], iterator_types = ["parallel", "parallel"]}} '
+                         f'ins({rets[0]}, {rets[-1]} : {base_t}, {base_t}) outs(%c : {base_t}) attrs = {{tag = 9 : i32}} {{')
+            lines += ["    ^bb0(%x : i8, %y : i8, %z : i8):", "      %mm = arith.muli %x, %y : i8", "      linalg.yield %mm : i8", "    }"]
+        if rng.random() < 0.3:
+            lines.append(f'    %tmp = memref.alloc() : {base_t}')
+            lines.append(f'    "memref.copy"(%a, %tmp) : ({base_t}, {base_t}) -> ()')
+            lines.append(f'    "memref.dealloc"(%tmp) : ({base_t}) -> ()')
+        text = ("builtin.module {\n  func.func public @f(%a : " + base_t + ", %b : " + base_t + ", %c : " + base_t + ", %n : index) -> (" + ", ".join([base_t] * nret) + ") {\n"
+                + "\n".join(lines) + "\n    func.return " + ", ".join(rets) + " : " + ", ".join([base_t] * nret) + "\n  }\n}\n")
+        jobs.append((f"toglobal:{seed}:{k}", text, "pipe:alloc-to-global", None))
+    for k in range(40 if quick else 400):
+        jobs.append((f"cleared:{seed}:{k}", gen_func(rng, True), "pipe:set-memory-space,realize-memref-casts,clear-memory-space", None))
     prev_text = None
     for ji, (name, text, with_spaces, wargdom) in enumerate(jobs):
         own = text
@@ -166,6 +191,8 @@ def run(pid: str, tier: str, seed: int, selftest=False, replay=None) -> int:
         except Exception as e:
             raise MachineryError(f"generator produced invalid input {name}: {e}\n{text}")
         pipe = "set-memory-space,realize-memref-casts" if with_spaces is True else "realize-memref-casts"
+        if isinstance(with_spaces, str) and with_spaces.startswith("pipe:"):
+            pipe = with_spaces[5:]
         m = src.clone()
         try:
             repo.run_pipeline(m, pipe)
@@ -187,8 +214,11 @@ def run(pid: str, tier: str, seed: int, selftest=False, replay=None) -> int:
             ext = [str(a.type.memory_space) for a in fb.body.block.args if hasattr(a.type, "memory_space")]
             if any('"L1"' in e for e in ext):
                 rep.violation(name + "|signature", f"function arguments moved to local memory: {ext}", {"source": text, "after": str(fb)[:2000]})
+        if pipe.endswith("clear-memory-space") and any(s_ in str(m) for s_ in ('"L1"', '"L3"', "#tsl.tsl")):
+            rep.violation(name + "|cleared", "memory spaces / tiled layouts remain after clear-memory-space", {"source": text, "after": str(m)[:3000]})
+        needl1 = 1 if (with_spaces is True or with_spaces == "l1") else 0
         cases.append({"name": name, "A": ia, "B": ib, "argdom": wargdom or [[900001], [900002], [900003], [0, 1, 2, 3]], "opqdom": [[0]],
-                      "extra": {"needl1": 1 if with_spaces else 0}, "text": text, "after": str(fb)[:4000], "pipe": pipe})
+                      "extra": {"needl1": needl1}, "text": text, "after": str(fb)[:4000], "pipe": pipe})
     rep.rule = (f"{n} generated functions mixing arguments, allocations and chains of 1-2 layout casts feeding 1-3 accelerator ops (linalg.generic) as "
                 "inputs and/or outputs in any order, also inside loops; through the real realize-memref-casts (explicit casts) or set-memory-space + "
                 "realize-memref-casts (casts inserted by the compiler); TLC runs both programs with symbolic buffer contents (a cast is an alias before, "
